@@ -119,12 +119,16 @@ class _FakeEioBase:
         self.n += 1
         return '%s%d' % (self.idprefix, self.n)
 
+    on_send = None      # harness hook: called after a packet was handed to a transport (the peer may answer at once)
+
     def _deliver(self, eio_sid, data):
         tr = self.t.get(eio_sid)
         if tr is None or tr.state == 'closed':
             return      # engine.io: "Cannot send to sid", dropped
         tr.outbox.append(data)
         self.sent_log.append((eio_sid, data))
+        if self.on_send is not None:
+            self.on_send(eio_sid, data)
 
     def get_session(self, eio_sid):
         tr = self.t.get(eio_sid)
@@ -235,9 +239,11 @@ class FakeAEio(_FakeEioBase):
         return _FakeEioBase.save_session(self, eio_sid, session)
 
     async def send(self, eio_sid, data):
+        # a send is a suspension point before and after the packet is handed to the transport
         from . import miniloop
         await miniloop.checkpoint('eio.send')
         self._deliver(eio_sid, data)
+        await miniloop.checkpoint('eio.sent')
 
     async def send_packet(self, eio_sid, pkt):
         from . import miniloop
@@ -246,6 +252,7 @@ class FakeAEio(_FakeEioBase):
             self._deliver(eio_sid, pkt.data)
         else:
             self._deliver(eio_sid, ('eio', pkt.packet_type, pkt.data))
+        await miniloop.checkpoint('eio.sent')
 
     def start_background_task(self, target, *a, **kw):
         from . import miniloop
